@@ -29,14 +29,16 @@ TRUSTED = [
     "translator harness/c15.py:generate (Python ast, alpha-normalised comparison with the accepted shapes of _call_periodic, "
     "KGTimerHandler.cancel, eval_sys_fn_timer, eval_sys_fn_cancel_timer, KGFnWrapper) for the flags guard / clear-on-raise / monotone re-arm / re-resolve",
     "extraction: ExtrOcamlBasic only; Z kept as inductive; ocaml/driver.ml",
-    "harness/c15.py:VLoop stands for asyncio.BaseEventLoop (time, call_soon, call_at, call_later, _run_once dispatch rule "
-    "`when < time() + clock_resolution`, cancelled handles skipped); Coq Model.loop_once is its model",
+    "Coq Model.loop_once models BaseEventLoop._run_once (dispatch rule `when < time() + clock_resolution`, cancelled handles skipped); "
+    "it is compared on every run with harness VLoop and with asyncio's own SelectorEventLoop run on a virtual clock (RLoop: time() overridden, "
+    "selector advances the clock instead of sleeping); under asyncio's heap, experiments with equal deadlines are judged by the checker only",
     "clock values are multiples of 2^-20 s below 2^32 s, so binary64 arithmetic on them is exact; rounding of other clock values is not modelled",
 ]
 ASSUME = [
     "the event loop runs callbacks one at a time on one thread and never runs a cancelled handle (asyncio semantics, reproduced by VLoop)",
     "order of handles with equal deadlines is first-armed-first or its reverse (both are exercised); the theorems do not depend on the order",
-    "callbacks are the scripted ones: advance the clock, optionally .timerc / redefine / raise, return 0 or 1; creating timers from inside a callback is not modelled",
+    "callbacks are the scripted ones: advance the clock, optionally .timerc / redefine or unbind a callback name / raise / create the next timer of a pool, return a value of one of 14 kinds",
+    "a callback name is unbound only while its timer exists (calling .timer with an unbound name is a Klong error, not a timer)",
     "binary64 rounding of non-dyadic clock values is not modelled",
 ]
 
@@ -1087,9 +1089,11 @@ def run(tier, replay=None):
                           {"broken_obligation": proof["broken"], "coq_error": proof["error"], "generated": chk.generated_text}, no_input=True)
     return chk.finish(
         rule="one timer: every callback script up to length 2 (3 in thorough, python callbacks) over durations {0, I/2, I, 5I/4, 2I+} x return x "
-             "action {none, cancel self, raise, redefine} x intervals {0,1,2,5} x dispatch {on time, early within resolution, late < I, late > I}; "
-             "seeded random systems of 1-3 timers with cancel-other, external .timerc / redefinition at chosen times, mixed latencies, both tie orders, "
-             "fractional start times; python callables and named Klong callbacks through .timer. distinct_nontrivial = distinct observed histories with more than 2 events",
+             "action {none, cancel self, raise, redefine} x intervals {0,1,2,5} x dispatch {on time, early within resolution, late < I, late > I}; every kind of "
+             "callback result (14: ints, reals, strings, lists of 0/1/2 elements, symbol) alone and repeated; seeded random systems of 1-3 timers with cancel-other / "
+             "non-timers, timers created inside callbacks, names unbound and re-created, external .timerc / redefinition / unbinding at chosen times, mixed latencies, "
+             "both tie orders, fractional start times; python callables and named Klong callbacks through .timer; every 8th case also under asyncio's own event loop on a "
+             "virtual clock. distinct_nontrivial = distinct observed histories with more than 2 events",
         trusted_base=TRUSTED, assumptions=ASSUME)
 
 
